@@ -84,6 +84,8 @@ class Kind:
             return self.top
         if self.top == "UnaryOperator" and key == exprkey + ".UnaryOperator.unop":
             return self.detail.get("unop")
+        if self.top == "UnaryOperator" and key == exprkey + ".UnaryOperator.expression":
+            return self.detail.get("operand")
         if self.top == "Symbol":
             if key.endswith(".symbol"):
                 return self.detail.get("symbol")
@@ -106,7 +108,7 @@ def row_matches(cons, kind, exprkey):
     return True
 
 
-def removable(Tinfo, c, kind):
+def removable(Tinfo, c, kind, ks=None):
     rows = Tinfo["T"].get(c)
     if rows is None:
         return None
@@ -114,6 +116,9 @@ def removable(Tinfo, c, kind):
     for cons, r in rows:
         if row_matches(cons, kind, Tinfo["expr"]):
             res.add(r)
+    if "rec" in res and ks is not None and kind.detail.get("operand") in ks:
+        # `check_excess_parentheses(operand, context)`: the answer is the operand's own row
+        res = (res - {"rec"}) | (removable(Tinfo, c, ks[kind.detail["operand"]]) or {"unknown"})
     return res
 
 
@@ -123,6 +128,12 @@ def kinds_for(prog):
     ks = {}
     for u in uv:
         ks[f"Unary({u})"] = Kind(f"Unary({u})", "UnaryOperator", {"unop": u})
+    # a unary operator over a greedy operand: `(-if c then a else b) + 1`, `(-v :: T) < 5` - without the parentheses the
+    # operand swallows what follows (or no longer parses)
+    for opnd in ("IfExpression", "TypeAssertion"):
+        if opnd in ev:
+            for u in uv:
+                ks[f"Unary({u})[{opnd}]"] = Kind(f"Unary({u})[{opnd}]", "UnaryOperator", {"unop": u, "operand": opnd})
     ks["BinaryOperator"] = Kind("BinaryOperator", "BinaryOperator")
     ks["FunctionCall"] = Kind("FunctionCall", "FunctionCall")
     ks["Symbol(...)"] = Kind("Symbol(...)", "Symbol", {"symbol": "Ellipsis"})
@@ -138,8 +149,11 @@ def kinds_for(prog):
 def unsafe(role, ks):
     """Lua/Luau grammar oracle: inner kinds whose parentheses cannot be removed at `role`
     without changing the parse or the number of values."""
-    un = [k for k in ks if k.startswith("Unary(")]
+    un = [k for k in ks if k.startswith("Unary(") and "[" not in k]
+    greedy = [k for k in ks if k.startswith("Unary(") and "[" in k]
     compound = [k for k in ("BinaryOperator", "TypeAssertion", "IfExpression") if k in ks]
+    if role in ("lhs^", "lhs-other", "rhs", "unary-operand", "lhs-unknown", "assert-operand"):
+        compound = compound + greedy
     if role == "whole":
         return ["FunctionCall", "Symbol(...)"]
     if role == "lhs^":
@@ -511,7 +525,7 @@ def rule_paren(ctx, prop, parts=("table", "oracle", "context-lost", "minus"), ro
                     for kn in (sorted(ks) if all_kinds else unsafe(r, ks)):
                         if "remove" not in outs:
                             continue
-                        res = removable(Tinfo, c, ks[kn])
+                        res = removable(Tinfo, c, ks[kn], ks)
                         if res and (res - {"keep"}):
                             bad.append(kn)
                     rep.inst(f"stylua_lib::{p} role={r} ctx={c}", {"role": r, "ctx": c, "unsafe_kinds": unsafe(r, ks),
